@@ -1,5 +1,5 @@
 (* Correspondence cases for C13. *)
-From KV Require Export Yaml.Split Yaml.Annot Yaml.Stream Fs.PkgWriter.
+From KV Require Export Yaml.Split Yaml.Annot Yaml.Stream Yaml.Anchor Fs.PkgWriter.
 
 Definition oclass_eqb13 (a b : oclass) : bool :=
   match a, b with
@@ -33,6 +33,13 @@ Inductive case13 :=
    [encs] cleared node -> its encoding; observed: ByteReader.Read then ByteWriter.Write of the stream *)
 | T_stream (s : string) (decs : list (string * option node)) (encs : list (node * string))
            (nonstr : list string) (cls : oclass) (out : string)
+(* LocalPackageReadWriter with options: the files the reader opened (relative path, and per resource the path
+   annotation carried in the content), then Writes; per step accepted-or-not and the RemoveAll arguments *)
+| P_rwo (o : rw_opts) (pkg : string) (files : list pkg_file) (steps : list (list string)) (obs : list (oclass * list string))
+(* RNode.DeAnchor on a document with anchors / aliases / merge keys: outcome class and resulting tree *)
+| D_deanchor (doc : anode) (cls : oclass) (out : anode)
+(* … a generated document, inside the model's domain (flat_merges): also the conclusion of C13_deanchor_plain_partial *)
+| D_deanchor_flat (doc : anode) (cls : oclass) (out : anode)
 | P_write (pkg ann : string) (cls : oclass) (mkdir write : string)  (* LocalPackageWriter, one resource, fresh package *)
 | A_read (index : N) (doc after : node) (nonstr : list string)      (* reader annotations set on a decoded document *)
 | A_pkgread (index : N) (path : string) (doc after : node) (nonstr : list string)  (* … with SetAnnotations = path keys (package reader) *)
@@ -58,6 +65,17 @@ Definition agree13 (c : case13) : bool :=
       | Ok (d, f) => oclass_eqb13 cls COk && String.eqb d mk && String.eqb f wr
       | x => oclass_eqb13 cls (class_of x)
       end
+  | P_rwo o pkg files steps obs =>
+      (fix go (rs : list (res (list string))) (os : list (oclass * list string)) : bool :=
+         match rs, os with
+         | [], [] => true
+         | r :: rs', (cls, dels) :: os' =>
+             match r with
+             | Ok ds => oclass_eqb13 cls COk && forallb (fun x => str_in x dels) ds && forallb (fun x => str_in x ds) dels
+             | _ => oclass_eqb13 cls CErr && match dels with [] => true | _ => false end
+             end && go rs' os'
+         | _, _ => false
+         end) (rw_run_o o pkg files steps) obs
   | P_seq pkg files steps obs =>
       (fix go (rs : list (res (list string))) (os : list (oclass * list string)) : bool :=
          match rs, os with
@@ -77,6 +95,17 @@ Definition agree13 (c : case13) : bool :=
                           | Some kv => snd kv | None => "<<no encoding>>" end in
       match rt_stream (fun x => str_in x ns) dec enc s with
       | Ok o => oclass_eqb13 cls COk && String.eqb o out
+      | r => oclass_eqb13 cls (class_of r)
+      end
+  | D_deanchor doc cls out =>
+      match deanchor_doc doc with
+      | Ok e => oclass_eqb13 cls COk && anode_eqb e out
+      | r => oclass_eqb13 cls (class_of r)
+      end
+  | D_deanchor_flat doc cls out =>
+      flat_merges false doc &&
+      match deanchor_doc doc with
+      | Ok e => oclass_eqb13 cls COk && anode_eqb e out && alias_free out && merge_free out
       | r => oclass_eqb13 cls (class_of r)
       end
   | P_write pkg ann cls mk wr =>
